@@ -200,7 +200,7 @@ impl SparqlNumber {
         match self {
             SparqlNumber::NativeInt(inner) => *inner as f32,
             SparqlNumber::BigInt(inner) => inner.to_f32().unwrap_or(f32::NAN),
-            SparqlNumber::Decimal(inner) => inner.to_f32().unwrap_or(f32::NAN),
+            SparqlNumber::Decimal(inner) => nearest_float(inner).unwrap_or(f32::NAN),
             SparqlNumber::Float(inner) => *inner,
             SparqlNumber::Double(inner) => *inner as f32,
         }
@@ -214,7 +214,7 @@ impl SparqlNumber {
         match self {
             SparqlNumber::NativeInt(inner) => *inner as f64,
             SparqlNumber::BigInt(inner) => inner.to_f64().unwrap_or(f64::NAN),
-            SparqlNumber::Decimal(inner) => inner.to_f64().unwrap_or(f64::NAN),
+            SparqlNumber::Decimal(inner) => nearest_float(inner).unwrap_or(f64::NAN),
             SparqlNumber::Float(inner) => f64::from(*inner),
             SparqlNumber::Double(inner) => *inner,
         }
@@ -449,6 +449,17 @@ pub(crate) fn is_float_lexical(lex: &str) -> bool {
         None => (lex, None),
     };
     is_decimal_lexical(mantissa) && exponent.is_none_or(is_integer_lexical)
+}
+
+/// The floating point number nearest to a decimal (ties to even).
+///
+/// NB: `BigDecimal::to_f64` truncates the digits and multiplies by an inexact power of ten
+/// (and `to_f32` rounds twice), so its result can be off by one unit in the last place,
+/// even on the wrong side of a neighbouring float;
+/// parsing the digits is correctly rounded whatever their number.
+fn nearest_float<F: std::str::FromStr>(decimal: &BigDecimal) -> Option<F> {
+    let (digits, scale) = decimal.as_bigint_and_exponent();
+    format!("{digits}e{}", -scale).parse().ok()
 }
 
 /// XPath `fn:round` on floating point numbers:
